@@ -39,6 +39,14 @@ BITS = 6
 
 # ------------------------------------------------------------------------------------------------ exact helpers
 
+def assert_exact(degree, bits, terms):
+    """float64 arithmetic on Gaussian integers is exact when degree*bits + log2(#terms) + 2 (complex products) <= 52"""
+    import math
+    need = degree * (bits + 1) + math.ceil(math.log2(max(terms, 1))) + 2
+    if need > 52:
+        raise AssertionError(f"exactness bound violated: {need} bits needed")
+
+
 def gint(rng, shape, cplx=True, bits=BITS):
     lim = 1 << bits
     re = rng.integers(-lim + 1, lim, size=shape)
@@ -236,6 +244,7 @@ def check_apply(ctx, din, dout, r, cp, cplx, extra_form=None, basis=None, seed=N
     else:
         X = np.zeros((di0, di1), dtype=np.complex128)
         X[basis] = 1
+    assert_exact(3, BITS, r * di0 * di1)
     forms = build_forms(As, Bs, cp)
     if extra_form == "triples":
         Cs = [gint(rng, (do1, di1), cplx) for _ in range(r)]
@@ -480,6 +489,7 @@ def check_partial(ctx, rd, cd, sys, dout, r, form, cplx, dim_form="list", sys_de
     As = [gint(rng, (do0, rd[t]), cplx) for _ in range(r)]
     Bs = As if cp else [gint(rng, (do1, cd[t]), cplx) for _ in range(r)]
     R, C = int(np.prod(rd)), int(np.prod(cd))
+    assert_exact(3, BITS, r * R * C)
     rho = gint(rng, (R, C), True)
     if form == "flat":
         obj = list(As)
@@ -505,7 +515,8 @@ def check_partial(ctx, rd, cd, sys, dout, r, form, cplx, dim_form="list", sys_de
     desc = {"fn": "partial_channel", "rd": list(rd), "cd": list(cd), "sys": sys, "dout": list(dout), "rank": r, "form": form,
             "complex": cplx, "dim_form": dim_form, "sys_default": sys_default}
     nontriv = rd[t] * cd[t] > 1 and R * C > rd[t] * cd[t]
-    ctx.case(desc, nontriv, f"partial/{form}/{'square' if list(rd) == list(cd) and do0 == do1 else 'rect'}/n={n}/sys={sys}/{dim_form}")
+    ctx.case(desc, nontriv, f"partial/{form}/{'square' if list(rd) == list(cd) and do0 == do1 else 'rect'}/n={n}/{'dim=None' if dim_form == 'none' else 'dim given'}")
+    ctx.count(f"partial-target/sys={sys}-of-{n}")
     # oracle: (I (x) A (x) I) rho (I (x) B (x) I)^dagger
     preR, postR = int(np.prod(rd[:t])), int(np.prod(rd[t + 1:]))
     preC, postC = int(np.prod(cd[:t])), int(np.prod(cd[t + 1:]))
